@@ -71,13 +71,14 @@ def make_small_energy(cfg):
     return f, (upd if has1 else None)
 
 
-def small_coeffs(cfg, rng):
+def small_coeffs(cfg, rng, cond=None):
     """Random coefficient set (slot 3).  A is SPD with spectrum in [1, cond]; the cosine term contributes at most
     0.1*1.5^2 = 0.225 < 1 to any Hessian eigenvalue, every other term is PSD in x."""
     from vlib.common import haar_on
     n, nb, nd = cfg["n"], cfg["nb"], cfg["nd"]
     ns = int(onp.prod(cfg["sshape"])) if cfg["sshape"] else 1
-    cond = float(10.0 ** rng.uniform(0.0, 2.0))
+    c0 = float(10.0 ** rng.uniform(0.0, 2.0))
+    cond = c0 if cond is None else float(cond)
     lam = onp.exp(rng.uniform(0.0, math.log(cond), size=n))
     lam[0], lam[-1] = 1.0, cond
     Q = haar_on(rng, n)
